@@ -788,6 +788,8 @@ class Lower:
                 return ["cmd", ["emit_run"], k]
             if name == "emit_temp_buf" and not args:
                 return ["cmd", ["emit_temp"], k]
+            if name == "discard_whitespace_char" and len(args) == 2 and self.cexp_expr(args[1], line) == ["cur"]:
+                return ["cmd", ["discard_ws"], k]
             if name == "emit_error" and len(args) == 1:
                 return ["cmd", ["error_msg", hashlib.sha1(json.dumps(args[0]).encode()).hexdigest()[:8]], k]
             self.err(line, "unsupported method call self.%s" % name)
